@@ -31,6 +31,23 @@ Section Published.
   Proof.
     exact (pkg_accepted _ strict_self_equiv strict_SerialHugr_shape sop md op_fields md_fields strict_Package_shape).
   Qed.
+
+  (* for the documents of the model of Hugr._to_serial *)
+  Variable op : Type.
+  Variable enc : op -> sop.
+  Variable ndp : op -> dir -> option nat.
+  Variable md_is_nil : md -> bool.
+  Theorem published_model_doc_accepted : forall (encoder : option string) (f : nat) (h : hugr op md) (s : serial sop md),
+    4 <= f -> ops_valid published_hugr_strict sop op_fields f ->
+    to_serial enc ndp md_is_nil h = Some s ->
+    accepts (3 + f) published_hugr_strict "SerialHugr" (doc_json op_fields md_fields encoder s) = true.
+  Proof. intros e f h s Hf Hop _. now apply published_doc_accepted. Qed.
+  Theorem published_model_pkg_accepted : forall (f : nat) (hs : list (hugr op md)) (mods : list (serial sop md)) (exts : list json),
+    4 <= f -> ops_valid published_hugr_strict sop op_fields f ->
+    mapM (to_serial enc ndp md_is_nil) hs = Some mods ->
+    (forall e, In e exts -> accepts (3 + f) published_hugr_strict "Extension" e = true) ->
+    accepts (6 + f) published_hugr_strict "Package" (pkg_json op_fields md_fields mods exts) = true.
+  Proof. intros f hs mods exts Hf Hop _ He. now apply published_pkg_accepted. Qed.
 End Published.
 
 (* non-vacuity on the real constant: two operations whose objects the published OpType accepts with every parent
